@@ -39,7 +39,10 @@ const (
 	TweakDescription   = 5 // CompanyEntryDescription changed: an identifying field, the header is no longer Equal
 	TweakEffectiveDate = 6 // EffectiveEntryDate changed: identifying
 	TweakCompanyID     = 7 // CompanyIdentification changed in header and control: identifying
-	numTweaks          = 8
+	// TweakBoundaryShift: one character moved across the CompanyName / CompanyIdentification boundary ("ACME 1" +
+	// "231380104" -> "ACME 12" + "31380104"): both identifying fields differ although their concatenation is the same
+	TweakBoundaryShift = 8
+	numTweaks          = 9
 )
 
 // Spec describes a list of input files reproducibly.  Merging shares entries
@@ -361,6 +364,29 @@ func ApplyTweak(f *ach.File, tweak int) error {
 				bh.EffectiveEntryDate = "300103"
 			} else {
 				bh.EffectiveEntryDate = "300102"
+			}
+		case TweakBoundaryShift:
+			name, id := bh.CompanyName, bh.CompanyIdentification
+			ascii := func(s string) bool {
+				for _, c := range s {
+					if c >= 0x80 {
+						return false
+					}
+				}
+				return true
+			}
+			if !ascii(name) || !ascii(id) {
+				break
+			}
+			switch {
+			case len(name) < 16 && len(id) >= 2 && id[0] != ' ' && id[1] != ' ':
+				name, id = name+id[:1], id[1:]
+			case len(name) >= 2 && len(id) < 10 && name[len(name)-1] != ' ' && name[len(name)-2] != ' ':
+				name, id = name[:len(name)-1], name[len(name)-1:]+id
+			}
+			bh.CompanyName, bh.CompanyIdentification = name, id
+			if bc := b.GetControl(); bc != nil {
+				bc.CompanyIdentification = id
 			}
 		case TweakCompanyID:
 			id := "7" + strings.Repeat("0", 8)
